@@ -487,4 +487,379 @@ theorem parseMessage_nofault (d : Dicts) (w : Bytes) : NoFault (parseMessage Fix
           | err e => rw [hl] at hx; cases hx
           | fault y => exact parseLoop_nofault d _ .main _ 3 _ rfl hh trivial y hl
 
+
+/-! ## range invariant of all sections; getters never fault on a parsed message -/
+
+/-- every field of the map is a non-empty view inside the field array -/
+def ViewsOK (fields : List TagValue) (fm : FieldMap) : Prop :=
+  ∀ k f, alFind fm.lookup k = some f → ∃ s n, f = .view s n ∧ 1 ≤ n ∧ s + n ≤ fields.length
+
+structure SecsOK (fields : List TagValue) (c : PCore) : Prop where
+  h : HdrOK fields c.header
+  b : ViewsOK fields c.body
+  t : ViewsOK fields c.trailer
+
+def ModeOK' (idx : Nat) : Mode → Prop
+  | .main => True
+  | .grp dmStart _ _ => dmStart < idx
+
+theorem ViewsOK.set {fields : List TagValue} {fm : FieldMap} (h : ViewsOK fields fm) (i : Nat) (tv : TagValue) :
+    ViewsOK (fields.set i tv) fm := by
+  intro k f hf; obtain ⟨s, n, h1, h2, h3⟩ := h k f hf; exact ⟨s, n, h1, h2, by simpa using h3⟩
+
+theorem ViewsOK.add {fields : List TagValue} {fm : FieldMap} (h : ViewsOK fields fm) (t : Tag) (s n : Nat) (h1 : 1 ≤ n)
+    (h2 : s + n ≤ fields.length) : ViewsOK fields (fm.add t (.view s n)) := by
+  intro k f hf
+  simp only [FieldMap.add] at hf
+  by_cases e : k = t
+  · subst e; rw [alFind_insert_self] at hf; injection hf with hf; exact ⟨s, n, hf.symm, h1, h2⟩
+  · rw [alFind_insert_other _ _ _ _ e] at hf; exact h k f hf
+
+theorem ViewsOK.empty (fields : List TagValue) (o : OrdKind) : ViewsOK fields (FieldMap.empty o) := by
+  intro k f hf; simp [FieldMap.empty, alFind] at hf
+
+theorem SecsOK.set {fields : List TagValue} {c : PCore} (h : SecsOK fields c) (i : Nat) (tv : TagValue) : SecsOK (fields.set i tv) c :=
+  ⟨h.h.set i tv, h.b.set i tv, h.t.set i tv⟩
+
+theorem mainSwitch_secs (fx : Fixes) (d : Dicts) (fields : List TagValue) (idx : Nat) (tv : TagValue) (c : PCore)
+    (h : SecsOK fields c) (hi : idx < fields.length) :
+    SecsOK fields (mainSwitch fx d fields idx tv c).1 ∧ ∀ m, (mainSwitch fx d fields idx tv c).2 = some m → ModeOK' (idx + 1) m := by
+  unfold mainSwitch
+  split
+  · exact ⟨⟨h.h.add _ _ hi, h.b, h.t⟩, fun m hm => by cases hm⟩
+  · split
+    · exact ⟨⟨h.h, h.b, h.t.add _ idx 1 (by omega) (by omega)⟩, fun m hm => by cases hm⟩
+    · split
+      · exact ⟨⟨h.h, h.b, h.t⟩, fun m hm => by injection hm with hm; subst hm; show idx < idx + 1; omega⟩
+      · exact ⟨⟨h.h, h.b.add _ idx 1 (by omega) (by omega), h.t⟩, fun m hm => by cases hm⟩
+
+theorem tailStep_secs (fields : List TagValue) (tv : TagValue) (c : PCore) (h : SecsOK fields c) :
+    ∃ c2 b, tailStep fields tv c = .ok (c2, b) ∧ SecsOK fields c2 := by
+  by_cases h10 : tv.tag = 10
+  · exact ⟨c, true, by simp [tailStep, h10], h⟩
+  · by_cases hfb : c.foundBody = true
+    · by_cases h212 : tv.tag = 212
+      · obtain ⟨v, hv⟩ := xmlLenOf_cases fields c.header h.h
+        exact ⟨{ c with xmlDataLen := v }, false, by simp [tailStep, h10, hfb, h212, hv], ⟨h.h, h.b, h.t⟩⟩
+      · exact ⟨c, false, by simp [tailStep, h10, hfb, h212], h⟩
+    · by_cases h212 : tv.tag = 212
+      · obtain ⟨v, hv⟩ := xmlLenOf_cases fields c.header h.h
+        exact ⟨{ c with bodyBytes := c.rawBytes, xmlDataLen := v }, false, by simp [tailStep, h10, hfb, h212, hv], ⟨h.h, h.b, h.t⟩⟩
+      · exact ⟨{ c with bodyBytes := c.rawBytes }, false, by simp [tailStep, h10, hfb, h212], ⟨h.h, h.b, h.t⟩⟩
+
+theorem addDm_secs (fields : List TagValue) (dmStart idx : Nat) (c : PCore) (h : SecsOK fields c) (hd : dmStart < idx) (hi : idx < fields.length) :
+    ∃ c1, addDm fields dmStart idx c = .ok c1 ∧ SecsOK fields c1 ∧ c1.rawBytes = c.rawBytes := by
+  unfold addDm
+  have hlt : dmStart < fields.length := by omega
+  have : idxR fields dmStart = .ok (fields[dmStart]'hlt) := by simp [idxR, List.getElem?_eq_getElem hlt]
+  rw [this]
+  exact ⟨_, rfl, ⟨h.h, h.b.add _ dmStart (idx - dmStart) (by omega) (by omega), h.t⟩, rfl⟩
+
+
+theorem SecsOK.withTrailerBytes {fields : List TagValue} {c : PCore} (h : SecsOK fields c) (tb : Bytes) :
+    SecsOK fields { c with trailerBytes := tb } := ⟨h.h, h.b, h.t⟩
+
+theorem grpSwitch_secs (d : Dicts) (fields : List TagValue) (idx : Nat) (tv : TagValue) (dmStart : Nat) (tags : List Tag)
+    (gf : List DNode) (c : PCore) (hd : dmStart < idx) (hi : idx < fields.length) (h : SecsOK fields c) :
+    ∃ c1 mo, grpSwitch Fixes.cur d fields idx tv dmStart tags gf c = .ok (c1, mo) ∧ SecsOK fields c1 ∧
+      ∀ m, mo = some m → ModeOK' (idx + 1) m := by
+  obtain ⟨cT1, hT1, sT1, _⟩ := addDm_secs fields dmStart idx c h hd hi
+  obtain ⟨cB1, hB1, sB1, _⟩ := addDm_secs fields dmStart idx { c with trailerBytes := c.rawBytes } (h.withTrailerBytes _) hd hi
+  have hB : SecsOK fields { c with trailerBytes := c.rawBytes } := h.withTrailerBytes _
+  have mk : ∀ (ds : Nat) (tg : List Tag) (g : List DNode), ds ≤ idx → ∀ m, some (Mode.grp ds tg g) = some m → ModeOK' (idx + 1) m := by
+    intro ds tg g hds m hm; injection hm with hm; subst hm; show ds < idx + 1; omega
+  unfold grpSwitch
+  simp only [Fixes.cur, if_true]
+  split
+  · split
+    · exact ⟨_, _, rfl, hB, mk _ _ _ (by omega)⟩
+    · exact ⟨_, _, rfl, hB, mk _ _ _ (by omega)⟩
+  · split
+    · simp only [hT1]
+      exact ⟨_, _, rfl, ⟨sT1.h.add _ _ hi, sT1.b, sT1.t⟩, fun m hm => by cases hm⟩
+    · split
+      · simp only [hT1]
+        exact ⟨_, _, rfl, ⟨sT1.h, sT1.b, sT1.t.add _ idx 1 (by omega) (by omega)⟩, fun m hm => by cases hm⟩
+      · split
+        · simp only [hB1]
+          exact ⟨_, _, rfl, sB1, mk _ _ _ (by omega)⟩
+        · split
+          · split
+            · exact ⟨_, _, rfl, hB, mk _ _ _ (by omega)⟩
+            · exact ⟨_, _, rfl, hB, mk _ _ _ (by omega)⟩
+          · simp only [hB1]
+            exact ⟨_, _, rfl, ⟨sB1.h, sB1.b.add _ idx 1 (by omega) (by omega), sB1.t⟩, fun m hm => by cases hm⟩
+
+/-- one iteration, with the range invariant of all three sections -/
+inductive StepOutcome' (d : Dicts) (fields : List TagValue) (idx : Nat) (r : Res (List TagValue × PCore)) : Prop where
+  | err (e : String) (h : r = .err e)
+  | finish (fields' : List TagValue) (c' : PCore) (hh : SecsOK fields' c') (h : r = finishParse fields' c')
+  | next (m' : Mode) (fields' : List TagValue) (c' : PCore) (hl : fields'.length = fields.length)
+      (hh : SecsOK fields' c') (hm : ModeOK' (idx + 1) m') (h : r = parseLoop Fixes.cur d m' fields' (idx + 1) c')
+
+theorem after_switch' (d : Dicts) (fields fields' : List TagValue) (idx : Nat) (tv : TagValue) (c1 : PCore)
+    (hl : fields'.length = fields.length) (hh : SecsOK fields' c1) :
+    StepOutcome' d fields idx
+      (match tailStep fields' tv c1 with
+       | .ok (c2, true) => finishParse fields' c2
+       | .ok (c2, false) => parseLoop Fixes.cur d .main fields' (idx + 1) c2
+       | .err e => .err e
+       | .fault w => .fault w) := by
+  obtain ⟨c2, b, ht, hc2⟩ := tailStep_secs fields' tv c1 hh
+  rw [ht]
+  cases b with
+  | true => exact .finish fields' c2 hc2 rfl
+  | false => exact .next .main fields' c2 hl hc2 trivial rfl
+
+theorem parseLoop_step' (d : Dicts) (mode : Mode) (fields : List TagValue) (idx : Nat) (c : PCore)
+    (hh : SecsOK fields c) (hm : ModeOK' idx mode) (hidx : idx < fields.length) :
+    StepOutcome' d fields idx (parseLoop Fixes.cur d mode fields idx c) := by
+  rw [parseLoop]
+  simp only [hidx, dite_true]
+  cases mode with
+  | main =>
+    simp only []
+    have hex : ∀ (ex : Bytes × Res TagValue) (c0 : PCore), NoFault ex.2 → SecsOK fields c0 →
+        StepOutcome' d fields idx
+          (match ex.2 with
+           | .err e => .err e
+           | .fault w => .fault w
+           | .ok tv =>
+             match mainSwitch Fixes.cur d (fields.set idx tv) idx tv { c0 with rawBytes := ex.1 } with
+             | (c1, some m) => parseLoop Fixes.cur d m (fields.set idx tv) (idx + 1) c1
+             | (c1, none) =>
+               match tailStep (fields.set idx tv) tv c1 with
+               | .ok (c2, true) => finishParse (fields.set idx tv) c2
+               | .ok (c2, false) => parseLoop Fixes.cur d .main (fields.set idx tv) (idx + 1) c2
+               | .err e => .err e
+               | .fault w => .fault w) := by
+      intro ex c0 hnf hc0
+      cases hr : ex.2 with
+      | err e => exact .err e rfl
+      | fault w => exact absurd hr (hnf w)
+      | ok tv =>
+        simp only []
+        have hl : (fields.set idx tv).length = fields.length := by simp
+        have hh' : SecsOK (fields.set idx tv) ({ c0 with rawBytes := ex.1 } : PCore) := ⟨hc0.h.set idx tv, hc0.b.set idx tv, hc0.t.set idx tv⟩
+        obtain ⟨h1, h2⟩ := mainSwitch_secs Fixes.cur d (fields.set idx tv) idx tv { c0 with rawBytes := ex.1 } hh' (by rw [hl]; exact hidx)
+        cases hms : mainSwitch Fixes.cur d (fields.set idx tv) idx tv { c0 with rawBytes := ex.1 } with
+        | mk c1 mo =>
+          rw [hms] at h1 h2
+          cases mo with
+          | some m => exact .next m _ c1 hl h1 (h2 m rfl) rfl
+          | none => exact after_switch' d fields _ idx tv c1 hl h1
+    by_cases hx : c.xmlDataLen > 0
+    · simp only [hx, if_true]
+      exact hex (extractXMLDataField Fixes.cur c.rawBytes c.xmlDataLen) { c with xmlDataLen := 0, xmlDataMsg := true }
+        (extractXML_nofault _ _ hx) ⟨hh.h, hh.b, hh.t⟩
+    · simp only [hx, if_false]
+      exact hex (extractField c.rawBytes) c (extractField_nofault _) hh
+  | grp dmStart tags gf =>
+    simp only []
+    cases hr : (extractField c.rawBytes).2 with
+    | fault w => exact absurd hr (extractField_nofault _ w)
+    | err e =>
+      simp only []
+      have hl : (fields.set idx fields[idx]).length = fields.length := by simp
+      obtain ⟨c1, mo, hg, h1, h2⟩ := grpSwitch_secs d (fields.set idx fields[idx]) idx fields[idx] dmStart tags gf
+        { c with rawBytes := (extractField c.rawBytes).1 } hm (by rw [hl]; exact hidx) ⟨hh.h.set idx _, hh.b.set idx _, hh.t.set idx _⟩
+      rw [hg]
+      cases mo with
+      | some m => exact .next m _ c1 hl h1 (h2 m rfl) rfl
+      | none => exact after_switch' d fields _ idx _ c1 hl h1
+    | ok tv =>
+      simp only []
+      have hl : (fields.set idx tv).length = fields.length := by simp
+      obtain ⟨c1, mo, hg, h1, h2⟩ := grpSwitch_secs d (fields.set idx tv) idx tv dmStart tags gf
+        { c with rawBytes := (extractField c.rawBytes).1 } hm (by rw [hl]; exact hidx) ⟨hh.h.set idx _, hh.b.set idx _, hh.t.set idx _⟩
+      rw [hg]
+      cases mo with
+      | some m => exact .next m _ c1 hl h1 (h2 m rfl) rfl
+      | none => exact after_switch' d fields _ idx _ c1 hl h1
+
+theorem finishParse_secs (fields : List TagValue) (c : PCore) (h : SecsOK fields c) (r : List TagValue × PCore)
+    (hr : finishParse fields c = .ok r) : SecsOK r.1 r.2 := by
+  simp only [finishParse] at hr
+  split at hr
+  · split at hr
+    · cases hr
+    · injection hr with hr; subst hr
+      obtain ⟨k1, _, k3, k4⟩ := finishAdjust_keeps c
+      exact ⟨by rw [k1]; exact h.h, by rw [k3]; exact h.b, by rw [k4]; exact h.t⟩
+  · cases hr
+  · cases hr
+
+theorem parseLoop_secs (d : Dicts) : ∀ (n : Nat) (mode : Mode) (fields : List TagValue) (idx : Nat) (c : PCore),
+    fields.length - idx = n → SecsOK fields c → ModeOK' idx mode → ∀ r, parseLoop Fixes.cur d mode fields idx c = .ok r → SecsOK r.1 r.2 := by
+  intro n
+  induction n with
+  | zero =>
+    intro mode fields idx c hn _ _ r hr
+    have : ¬ idx < fields.length := by omega
+    rw [parseLoop] at hr
+    simp [this, Fixes.cur] at hr
+  | succ n ih =>
+    intro mode fields idx c hn hh hm r hr
+    have hidx : idx < fields.length := by omega
+    cases parseLoop_step' d mode fields idx c hh hm hidx with
+    | err e h => rw [h] at hr; cases hr
+    | finish fields' c' hh' h => rw [h] at hr; exact finishParse_secs fields' c' hh' r hr
+    | next m' fields' c' hl hh' hm' h => rw [h] at hr; exact ih m' fields' (idx + 1) c' (by omega) hh' hm' r hr
+
+
+theorem ViewsOK.ofHdr {fields : List TagValue} {fm : FieldMap} (h : HdrOK fields fm) : ViewsOK fields fm := by
+  intro k f hf; obtain ⟨s, h1, h2⟩ := h k f hf; exact ⟨s, 1, h1, by omega, by omega⟩
+
+/-- the sections of every successfully parsed message hold only non-empty views inside `Message.fields` -/
+theorem parseMessage_views (d : Dicts) (w : Bytes) (m : Message) (hm : parseMessage Fixes.cur d w = .ok m) :
+    ViewsOK m.fields m.header ∧ ViewsOK m.fields m.body ∧ ViewsOK m.fields m.trailer := by
+  simp only [parseMessage] at hm
+  split at hm
+  · cases hm
+  · rcases extractSpecific_cases 8 (List.replicate (countByte w SOH) TagValue.zero) 0 w (FieldMap.empty .header) with ⟨e, h1⟩ | ⟨tv1, r1, hi1, h1⟩
+    · rw [h1] at hm; cases hm
+    · rw [h1] at hm
+      simp only [] at hm
+      rcases extractSpecific_cases 9 ((List.replicate (countByte w SOH) TagValue.zero).set 0 tv1) 1 r1 ((FieldMap.empty .header).add tv1.tag (.view 0 1)) with ⟨e, h2⟩ | ⟨tv2, r2, hi2, h2⟩
+      · rw [h2] at hm; cases hm
+      · rw [h2] at hm
+        simp only [] at hm
+        rcases extractSpecific_cases 35 (((List.replicate (countByte w SOH) TagValue.zero).set 0 tv1).set 1 tv2) 2 r2
+            (((FieldMap.empty .header).add tv1.tag (.view 0 1)).add tv2.tag (.view 1 1)) with ⟨e, h3⟩ | ⟨tv3, r3, hi3, h3⟩
+        · rw [h3] at hm; cases hm
+        · rw [h3] at hm
+          simp only [] at hm
+          have hh : HdrOK ((((List.replicate (countByte w SOH) TagValue.zero).set 0 tv1).set 1 tv2).set 2 tv3)
+              ((((FieldMap.empty .header).add tv1.tag (.view 0 1)).add tv2.tag (.view 1 1)).add tv3.tag (.view 2 1)) := by
+            have h0 := HdrOK.empty ((((List.replicate (countByte w SOH) TagValue.zero).set 0 tv1).set 1 tv2).set 2 tv3) .header
+            have l0 : 0 < ((((List.replicate (countByte w SOH) TagValue.zero).set 0 tv1).set 1 tv2).set 2 tv3).length := by simp at hi1 ⊢; omega
+            have l1 : 1 < ((((List.replicate (countByte w SOH) TagValue.zero).set 0 tv1).set 1 tv2).set 2 tv3).length := by simp at hi2 ⊢; omega
+            have l2 : 2 < ((((List.replicate (countByte w SOH) TagValue.zero).set 0 tv1).set 1 tv2).set 2 tv3).length := by simp at hi3 ⊢; omega
+            exact ((h0.add _ 0 l0).add _ 1 l1).add _ 2 l2
+          cases hl : parseLoop Fixes.cur d .main ((((List.replicate (countByte w SOH) TagValue.zero).set 0 tv1).set 1 tv2).set 2 tv3) 3
+              { header := (((FieldMap.empty .header).add tv1.tag (.view 0 1)).add tv2.tag (.view 1 1)).add tv3.tag (.view 2 1),
+                body := FieldMap.empty .normal, trailer := FieldMap.empty .trailer, bodyBytes := [], rawBytes := r3,
+                trailerBytes := [], foundBody := false, foundTrailer := false, xmlDataLen := 0, xmlDataMsg := false } with
+          | err e => rw [hl] at hm; cases hm
+          | fault y => rw [hl] at hm; cases hm
+          | ok r =>
+            rw [hl] at hm
+            obtain ⟨fs, c'⟩ := r
+            injection hm with hm; subst hm
+            have := parseLoop_secs d _ .main _ 3 _ rfl ⟨hh, ViewsOK.empty _ _, ViewsOK.empty _ _⟩ trivial (fs, c') hl
+            exact ⟨ViewsOK.ofHdr this.h, this.b, this.t⟩
+
+/-! ### the getters never fault on such maps -/
+
+theorem head_view_ok (fields : List TagValue) (s n : Nat) (h1 : 1 ≤ n) (h2 : s + n ≤ fields.length) :
+    ∃ tv, Field.head fields (.view s n) = .ok tv := by
+  have hlt : s < fields.length := by omega
+  have hne : ((fields.drop s).take n)[0]? = some (fields[s]'hlt) := by
+    rw [List.getElem?_take]; simp [List.getElem?_eq_getElem hlt]; omega
+  exact ⟨fields[s]'hlt, by simp [Field.head, Field.items, idxR, hne]⟩
+
+theorem getBytes_nofault {fields : List TagValue} {fm : FieldMap} (h : ViewsOK fields fm) (t : Tag) : NoFault (fm.getBytes fields t) := by
+  intro w hw
+  unfold FieldMap.getBytes at hw
+  cases hf : alFind fm.lookup t with
+  | none => simp [hf] at hw
+  | some f =>
+    obtain ⟨s, n, hs, h1, h2⟩ := h t f hf
+    subst hs
+    obtain ⟨tv, htv⟩ := head_view_ok fields s n h1 h2
+    simp [hf, htv] at hw
+
+theorem getInt_nofault' {fields : List TagValue} {fm : FieldMap} (h : ViewsOK fields fm) (t : Tag) : NoFault (fm.getInt fields t) := by
+  intro w hw
+  unfold FieldMap.getInt at hw
+  cases hb : fm.getBytes fields t with
+  | ok b =>
+    rw [hb] at hw; simp only [] at hw
+    cases ha : atoi b with
+    | ok v => rw [ha] at hw; cases hw
+    | err e => rw [ha] at hw; cases hw
+    | fault x => exact atoi_nofault _ x ha
+  | err e => rw [hb] at hw; cases hw
+  | fault x => exact getBytes_nofault h t x hb
+
+theorem findItem_nil_none (t : Tag) : findItem [] t = none := rfl
+
+theorem read_nofault : ∀ (fuel : Nat),
+    (∀ (tmpl : List Item) (tv : List TagValue) (done : List GEntry) (cur : Option GEntry), NoFault (readLoop fuel tmpl tv done cur)) ∧
+    (∀ (tmpl : List Item) (tv : List TagValue), tv ≠ [] → NoFault (readGroup fuel tmpl tv)) := by
+  intro fuel
+  induction fuel with
+  | zero => exact ⟨fun _ _ _ _ w hw => by simp [readLoop] at hw, fun _ _ _ w hw => by simp [readGroup] at hw⟩
+  | succ fuel ih =>
+    obtain ⟨ihL, ihG⟩ := ih
+    constructor
+    · intro tmpl tv done cur w hw
+      cases tv with
+      | nil => simp [readLoop] at hw
+      | cons t0 rest =>
+        simp only [readLoop] at hw
+        cases hf : findItem tmpl t0.tag with
+        | none => simp [hf] at hw
+        | some it =>
+          simp only [hf] at hw
+          cases tmpl with
+          | nil => simp [findItem] at hf
+          | cons dd tr =>
+            cases it with
+            | elem tg =>
+              simp only [] at hw
+              split at hw
+              · exact ihL _ _ _ _ w hw
+              · exact ihL _ _ _ _ w hw
+            | group tg gtm =>
+              simp only [] at hw
+              cases hg : readGroup fuel gtm (t0 :: rest) with
+              | ok r =>
+                rw [hg] at hw
+                obtain ⟨tv', gs⟩ := r
+                simp only [] at hw
+                split at hw
+                · exact ihL _ _ _ _ w hw
+                · exact ihL _ _ _ _ w hw
+              | err e => rw [hg] at hw; cases hw
+              | fault x => exact ihG gtm (t0 :: rest) (by simp) x hg
+    · intro tmpl tv hne w hw
+      cases tv with
+      | nil => exact absurd rfl hne
+      | cons t0 rest =>
+        simp only [readGroup] at hw
+        cases ha : atoi t0.value with
+        | err e => rw [ha] at hw; cases hw
+        | fault x => exact atoi_nofault _ x ha
+        | ok n =>
+          rw [ha] at hw
+          simp only [] at hw
+          split at hw
+          · cases hw
+          · cases hl : readLoop fuel tmpl rest [] none with
+            | ok r =>
+              rw [hl] at hw
+              obtain ⟨tv', gs⟩ := r
+              simp only [] at hw
+              split at hw <;> cases hw
+            | err e => rw [hl] at hw; cases hw
+            | fault x => exact ihL _ _ _ _ x hl
+
+theorem getGroup_nofault {fields : List TagValue} {fm : FieldMap} (h : ViewsOK fields fm) (t : Tag) (f : Field)
+    (hf : alFind fm.lookup t = some f) (tmpl : List Item) : NoFault (getGroup tmpl (f.full fields)) := by
+  obtain ⟨s, n, hs, h1, h2⟩ := h t f hf
+  subst hs
+  have hne : (Field.view s n).full fields ≠ [] := by
+    simp only [Field.full]
+    intro e
+    have := congrArg List.length e
+    simp at this; omega
+  intro w hw
+  unfold getGroup at hw
+  cases hg : readGroup (readFuel ((Field.view s n).full fields)) tmpl ((Field.view s n).full fields) with
+  | ok r => rw [hg] at hw; cases hw
+  | err e => rw [hg] at hw; cases hw
+  | fault x => exact (read_nofault _).2 tmpl _ hne x hg
+
+
 end Qfx
